@@ -1458,7 +1458,7 @@ impl TypedScenario for MulChain {
     fn n_runs(&self, tier: Tier) -> u64 {
         match tier {
             Tier::Quick => 20_000,
-            Tier::Thorough => 4_000_000,
+            Tier::Thorough => 3_000_000,
         }
     }
     fn generate(&self, seed: u64, _tier: Tier, i: u64) -> Plan {
@@ -1522,8 +1522,8 @@ impl TypedScenario for History {
         match (tier, self.faults) {
             (Tier::Quick, false) => 24_000,
             (Tier::Quick, true) => 8_000,
-            (Tier::Thorough, false) => 12_000_000,
-            (Tier::Thorough, true) => 4_000_000,
+            (Tier::Thorough, false) => 5_000_000,
+            (Tier::Thorough, true) => 2_000_000,
         }
     }
     fn generate(&self, seed: u64, tier: Tier, i: u64) -> Plan {
